@@ -222,6 +222,42 @@ def run(P, R, tier):
     R.floor('C16.d', 'derivation constructor sites', nd, 6)
     take_small_scope(P, R, ga)
     selection_shortcuts(P, R, ga)
+    common.forward(P, R, 'C13', ['C13.a', 'C13.b', 'C13.i'], 'C16.b', 'bounds of a derived array are computed from exactly its own elements', floor=10)
+    # C16.h: "wrapping in a Series" adds labels, nothing else: every quantity of a GeoSeries is the same-named quantity of its array, called with exactly the
+    # wrapper's own arguments on every path (a fast path that consults the object's history -- a built index, a cached value -- makes the result depend on how
+    # the series came to be)
+    gsc = P.cls('spatialpandas.geoseries.GeoSeries')
+    nw = 0
+    for name in ('bounds', 'total_bounds', 'area', 'length', 'hilbert_distance', 'intersects_bounds', 'intersects'):
+        mem = gsc.members.get(name)
+        if mem is None or mem[0] != 'func':
+            continue
+        w = mem[1]
+        wparams = [p_ for p_ in w.params if p_ != 'self']
+
+        def gate(c, name=name, w=w, wparams=wparams):
+            if not (isinstance(c.func, ast.Attribute) and c.func.attr == name):
+                return False
+            recv = norm(astq.expand(w, c.func.value))
+            if recv not in ('self.array', 'self.values', 'self._values'):
+                return False
+            got = [norm(a) for a in c.args] + [norm(k.value) for k in c.keywords]
+            return got == wparams
+        if w.kind == 'property':
+            def gate(c, name=name, w=w):        # noqa: F811  (attribute read, not a call: handled below)
+                return False
+            reads = [x for x in walk_own(w.node) if isinstance(x, ast.Attribute) and x.attr == name and norm(astq.expand(w, x.value)) in ('self.array', 'self.values', 'self._values')]
+            rets = [r_ for r_ in walk_own(w.node) if isinstance(r_, ast.Return) and r_.value is not None]
+            nw += len(rets)
+            for r_ in rets:
+                ok = any(any(y is x for y in ast.walk(astq.expand(w, r_.value))) or norm(x) in norm(astq.expand(w, r_.value)) for x in reads)
+                R.check(ok, 'C16.h', w, r_, f'GeoSeries.{name} is the array\'s {name} (with the labels)', f'`{norm(r_)}`: GeoSeries.{name} does not come from self.array.{name} on this path',
+                        construct=f'GeoSeries.{name} delegation')
+            continue
+        nw += common.returns_pass_through(P, R, 'C16.h', w, gate, f'self.array.{name}({", ".join(wparams)})',
+                                          f'on this path GeoSeries.{name} is not the array\'s {name} called with the wrapper\'s own arguments: the answer depends on the object\'s history (index built, cached state), '
+                                          'not only on its elements')
+    R.floor('C16.h', 'returns of the GeoSeries wrappers', nw, 6)
     # C16.g: every scalar handed out by an array is built like the one `__getitem__` builds: (python value, the array's numpy dtype).  Point scalars
     # need the dtype (their data is a raw byte string); without it an int64 / float32 point is reinterpreted as float64
     nel = 0
